@@ -572,6 +572,8 @@ def run(m, tier):
                          "comment/include/directive collected before the opening statement (AttributeError otherwise; shared with C08.R4)"))
     from rules import order_rules as _or24
     results.append(_or24.dispatch_terminates_rule(m, "C06.R24"))
+    from rules import prog_rules
+    results.append(prog_rules.garbage_rule(m, "C06.R25", tier))
     expl = ("Decides the structural clauses of C06: (R1) who-may-call -- no call path from the parse/print/read entry points to a "
             "process-terminating call (resolved call graph incl. grammar dispatch); (R2) every fparser exception class raised as a "
             "signal is converted at Program.__new__; (R3) every explicit raise of a non-convertible class is discharged by a guard "
